@@ -4,7 +4,10 @@ import json, re
 from pathlib import Path
 V = Path(__file__).resolve().parent.parent
 DESCR = json.loads((V / "seeded" / "descriptions.json").read_text()) if (V / "seeded" / "descriptions.json").exists() else {}
-rows = ["| id | breaks | change (needs, to manifest) | verdict of `./vf selftest` | caught by |", "|---|---|---|---|---|"]
+rows = ["| id | breaks | change (needs, to manifest) | first verdict | verdict now (`./vf selftest`) | caught by |", "|---|---|---|---|---|---|"]
+FIRST = {"c06_c": "missed (exit 0 quick; exit 2 thorough: timeout)", "c11_a": "missed (exit 2: contract named a renamed parameter)",
+         "c11_b": "missed (exit 0: function not under contract)", "c13_b": "missed (exit 2: `mem::replace` unspecified)",
+         "c17_b": "missed (exit 0: counter started at 0)"}
 for d in sorted((V / "seeded").iterdir()):
     if not (d / "meta.json").exists():
         continue
@@ -25,7 +28,13 @@ for d in sorted((V / "seeded").iterdir()):
                     obl.append(mm.group(1))
         verdict = ("**caught** — " if r.get("ok") else "**missed** — ") + "; ".join(parts)
         by = ", ".join(f"`{o}`" for o in obl[:4])
-    rows.append(f"| {d.name} | {', '.join(m['breaks'])} | {DESCR.get(d.name, '')} | {verdict} | {by} |")
+    first = FIRST.get(d.name, "")
+    if (d / "result_first.json").exists():
+        rf = json.loads((d / "result_first.json").read_text())
+        first = "caught" if rf.get("ok") else "missed (" + "; ".join(f"exit {c['exit']}" for c in rf["checks"].values()) + ")"
+    if not first:
+        first = "caught"
+    rows.append(f"| {d.name} | {', '.join(m['breaks'])} | {DESCR.get(d.name, '')} | {first} | {verdict} | {by} |")
 table = "\n".join(rows)
 p = V / "DESIGN.md"
 s = p.read_text()
